@@ -119,15 +119,8 @@ func (s *BaseNodeService) ProcessMessage(message storage.Message) error {
 		return nil
 	}
 
-	operation, err := s.processMessage(message)
-	if err != nil {
+	if _, err := s.processMessage(message, true); err != nil {
 		return err
-	}
-
-	if operation != nil {
-		if err := s.opService.PutOperation(operation); err != nil {
-			return fmt.Errorf("failed to PutOperation: %w", err)
-		}
 	}
 	return nil
 }
@@ -595,7 +588,7 @@ func (s *BaseNodeService) reinitDKG(message storage.Message) error {
 		// maximum inconvenience, and restart of the procedure,
 		// which is not very scary compared to the loss of compatibility.
 		if msg.RecipientAddr == "" || msg.RecipientAddr == s.GetUsername() {
-			operation, err := s.processMessage(msg)
+			operation, err := s.processMessage(msg, false)
 			if err != nil {
 				s.Logger.Log("failed to process operation:  %w", err)
 			}
@@ -698,7 +691,11 @@ func (s *BaseNodeService) processSignatureProposal(message storage.Message) erro
 	return nil
 }
 
-func (s *BaseNodeService) processMessage(message storage.Message) (*types.Operation, error) {
+// processMessage feeds a message to its round. With putOperation the operation the message gives
+// rise to goes to the pool before the round is saved: a node killed between the two writes comes
+// back with the round in its old state, accepts the message again and arrives at the same
+// operation, while the other order would leave a round that has moved on without its operation.
+func (s *BaseNodeService) processMessage(message storage.Message, putOperation bool) (*types.Operation, error) {
 	fsmInstance, err := s.fsmService.GetFSMInstance(message.DkgRoundID, true)
 	if err != nil {
 		return nil, fmt.Errorf("failed to getFSMInstance: %w", err)
@@ -893,6 +890,12 @@ func (s *BaseNodeService) processMessage(message storage.Message) (*types.Operat
 	if fsm.Event(message.Event) == sif.EventSigningStart {
 		if err := s.processSignatureProposal(message); err != nil {
 			return nil, fmt.Errorf("failed to process signature: %w", err)
+		}
+	}
+
+	if putOperation && operation != nil {
+		if err := s.opService.PutOperation(operation); err != nil {
+			return nil, fmt.Errorf("failed to PutOperation: %w", err)
 		}
 	}
 
